@@ -78,13 +78,14 @@ type Net struct {
 	mu       sync.Mutex
 	ordinals map[string]int
 	modes    map[string]DialMode
+	once     map[string][]DialMode // one-shot modes for the next dials to a host
 	conns    []*Conn
 	dials    int
 }
 
 // New returns an empty network.
 func New() *Net {
-	return &Net{ordinals: map[string]int{}, modes: map[string]DialMode{}, Rec: func(string, ...interface{}) {}, Wake: func() {}}
+	return &Net{ordinals: map[string]int{}, modes: map[string]DialMode{}, once: map[string][]DialMode{}, Rec: func(string, ...interface{}) {}, Wake: func() {}}
 }
 
 // SetDialMode sets what dials to host (an IP literal) do from now on.
@@ -125,6 +126,9 @@ func (n *Net) DialContext(ctx context.Context, network, addr string) (net.Conn, 
 	n.mu.Lock()
 	n.dials++
 	mode := n.modes[host]
+	if q := n.once[host]; len(q) > 0 {
+		mode, n.once[host] = q[0], q[1:]
+	}
 	ord := n.ordinals[host]
 	n.ordinals[host] = ord + 1
 	n.mu.Unlock()
@@ -541,4 +545,11 @@ func (c *Conn) PartialWrite() bool {
 		}
 	}
 	return false
+}
+
+// DialOnce makes the next dial to host behave as m, whatever the standing mode is.
+func (n *Net) DialOnce(host string, m DialMode) {
+	n.mu.Lock()
+	n.once[host] = append(n.once[host], m)
+	n.mu.Unlock()
 }
